@@ -90,9 +90,9 @@ Init == /\ expect = [t |-> "none"]
              \* large order-4 grids (interior local systems solved iteratively, interior bonds converging last): plain calls only
              /\ (op \in DivideOps /\ Len(N) >= 4 /\ N[2] >= 8 => g = "none" /\ sc = "unit" /\ r >= 3 /\ data = "rand")
              /\ (op = "elementwise_divide_c" \/ op \in {"div", "rdiv"} => g \in {"none"} \/ op = "elementwise_divide_c")
-             \* optional arguments: one at a time, on plain calls (no guess, unit scale, generic data, python backend, one seed)
+             \* optional arguments: one at a time, on plain calls (no guess, unit scale, generic data, one seed)
              /\ OptOK(op, opt)
-             /\ (opt # "default" => g = "none" /\ sc = "unit" /\ data = "rand" /\ ~cx /\ be = "py" /\ s = MinSeed)
+             /\ (opt # "default" => g = "none" /\ sc = "unit" /\ data = "rand" /\ ~cx /\ s = MinSeed)
              /\ (opt \in {"band1", "band2"} => sys \in {"laplace", "diagvar"})
              /\ cfg = [op |-> op, N |-> N, M |-> IF sq THEN N ELSE RowsOf(N), r |-> r, e |-> e, guess |-> g, seed |-> s, cx |-> cx,
                        backend |-> be, data |-> data, prec |-> prec, maxfull |-> mf, solver |-> ls, sys |-> sys, scale |-> sc,
